@@ -445,8 +445,18 @@ one(uint64_t seed, uint32_t hist, int flavour, int dyn, int multi, uint32_t in_c
                         if ((unsigned) S.copy_overflow_distance != SY[k].dist)
                                 FAIL("pending copy distance %d, the match has distance %u", S.copy_overflow_distance, SY[k].dist);
                 }
-                if (done + (S.write_overflow_len > 0 ? 0u : 0u) > ref_len)
-                        FAIL("overflow beyond reference");
+                /* pending literals are exactly the next bytes of the reference (an end-of-block packed in the same
+                 * group is not a literal to replay) */
+                if (S.write_overflow_len > 0) {
+                        uint32_t wl = (uint32_t) S.write_overflow_len;
+                        if (wl > 3 || done + wl > ref_len)
+                                FAIL("%u pending literals recorded at output position %u, the reference has only %u more bytes (end-of-block replayed as a literal?)", wl, done,
+                                     ref_len - done);
+                        for (uint32_t i = 0; i < wl; i++)
+                                if ((((uint32_t) S.write_overflow_lits >> (8 * i)) & 0xff) != REF[cur_hist + done + i])
+                                        FAIL("pending literal %u is 0x%02x, the reference byte is 0x%02x", i, ((uint32_t) S.write_overflow_lits >> (8 * i)) & 0xff,
+                                             REF[cur_hist + done + i]);
+                }
                 return;
         }
         if (expect_err) {
